@@ -65,7 +65,8 @@ def predicate(h):
                     # entity both sides merely link to (a source both tags list, deleted from the source tree) legitimately
                     # shows on both sides
                     own = (p[6], p[7]) if len(p) > 7 else (p[4], p[5])
-                    if tid is not None and (tid in own[0] or tid in own[1]):
+                    linked_across = (len(p) > 8 and p[8]) or (len(q) > 8 and q[8])      # before or after this call
+                    if tid is not None and (tid in own[0] or tid in own[1]) and not linked_across:
                         out.append(("one call changed both the source and its copy", i,
                                     {"op": op, "copy_step": p[0], "kept_ids": p[1]}))
     for p in (h.get("xfile") or {}).get("problems", []):
